@@ -167,3 +167,12 @@ CHECKS["C19"] = dict(
         dict(pkg="server", name="C19_primitives", bound="Lock (2 objects), RLock (depth 1..3, 2 objects), Semaphore(n) and MaxConcurrentFlow(n) with symbolic n in 1..4 and 6 acquires + 1 release, RWLock (writer/readers in both orders)", flags=["-witness", "1"], reach=["end"]),
     ],
 )
+
+CHECKS["C15"] = dict(
+    explanation="differential bounded symbolic execution: the real value-operation code (LockManager.ProcessLockData inside LockDB.Lock/UnLock, protocol constructors and result accessors) against a sequential reference interpreter over abstract values; payload bytes and increments symbolic",
+    assumptions=["well-formed frames built by the client-side constructors (hostile frames are C13's subject)", "operations follow the value's kind; behaviour on kind mismatch is unspecified and not asserted"],
+    harnesses=[
+        dict(pkg="server", name="C15_ops", bound="every sequence of 3 operations from SET / UNSET / INCR (symbolic 64-bit) / APPEND / SHIFT (within the value) / PUSH / POP (1..2) with payloads of 1..3 symbolic bytes, carried by LOCK requests of 3 LockIds", flags=["-witness", "20"], reach=["end"]),
+        dict(pkg="server", name="C15_refused", bound="a held key with a 1..3-byte value; a refused LOCK (immediate TIMEOUT) or UNLOCK (UNOWN_ERROR) carrying a SET", flags=["-witness", "1"], reach=["end"]),
+    ],
+)
